@@ -123,8 +123,8 @@ def merge_routine(ctx, rule='C12-R2'):
                 ctx.check(a1 == ('p', 'prms'), rule, caller, e.node, e.loc(),
                           f'_setup_prms merges {T.show(a1)} instead of the per-call dictionary',
                           instance='_setup_prms: source is the per-call dictionary')
-    # unknown keys: warn, never store
-    evs = fx.own_events(adj)
+    # unknown keys: warn, never store (local functions and helpers expanded)
+    evs = fx.deep_events(adj)
     ref = ('p', f.params[0])
     stores = [e for e in evs if e.kind in ('store', 'aug', 'mutcall', 'del')
               and T.root(e.base) == ref or (e.kind in ('store', 'aug') and tag(T.root(e.base)) == 'lphi'
@@ -197,7 +197,8 @@ def reset_fresh(ctx, rule='C12-R3'):
     gd = 'ampycloud.dynamic.get_default_prms'
     f = p.func(gd, rule)
     ctx.saw(f)
-    s = fx.summ[gd]
+    s = fx.deep(gd)[1]            # helpers (a shared YAML loader, ...) expanded
+    gd_events = fx.deep_events(gd)
     ctx.check(not f.decorators, rule, gd, f.node.name, f.loc(),
               f'get_default_prms is decorated by {f.decorators}: a memoised result is shared state',
               instance='get_default_prms: no memo decorator')
@@ -205,10 +206,19 @@ def reset_fresh(ctx, rule='C12-R3'):
     ctx.check(not org, rule, gd, f.node.name, f.loc(),
               f'get_default_prms returns an object shared with {[T.show(r) for r, _ in org]}',
               instance='get_default_prms: returns a fresh object')
-    loads = [e for e in fx.own_events(gd) if e.kind == 'call' and (call_head(e) or '').endswith('.load')
+    loads = [e for e in gd_events if e.kind == 'call' and (call_head(e) or '').endswith('.load')
              or (e.kind == 'call' and (call_head(e) or '').endswith('safe_load'))]
-    names = [e for e in fx.own_events(gd) if e.kind in ('call', 'assign', 'return') and any(
-        T.contains(v, lambda x: x == ('c', 'ampycloud_default_prms.yml')) for _, v in fx.terms_of(e))]
+
+    def names_the_file(x):
+        if x == ('c', 'ampycloud_default_prms.yml'):
+            return True
+        if tag(x) == 'g':           # a module-level constant holding the path
+            modq, _, nm = x[1].rpartition('.')
+            mod = p.modules.get(modq)
+            return mod is not None and any('ampycloud_default_prms.yml' in ast.unparse(n) for n in mod.globals.get(nm, []))
+        return False
+    names = [e for e in gd_events if e.kind in ('call', 'assign', 'return') and any(
+        T.contains(v, names_the_file) for _, v in fx.terms_of(e))]
     ctx.check(bool(loads) and bool(names), rule, gd, f.node.name, f.loc(),
               'get_default_prms does not load the packaged ampycloud_default_prms.yml on each call',
               instance='get_default_prms: loads the packaged YAML at call time')
@@ -219,7 +229,8 @@ def reset_fresh(ctx, rule='C12-R3'):
     rq = 'ampycloud.core.reset_prms'
     rf = p.func(rq, rule)
     ctx.saw(rf)
-    stores = [e for e in fx.own_events(rq) if e.kind in ('store',) and T.root(e.base) == G]
+    rq_events = fx.deep_events(rq)
+    stores = [e for e in rq_events if e.kind in ('store',) and T.root(e.base) == G]
     ctx.floor(rule, 'stores to the global in reset_prms', len(stores), 2)
     fresh_call = ('call', ('g', gd), (), ())
     for e in stores:
@@ -237,7 +248,7 @@ def reset_fresh(ctx, rule='C12-R3'):
                       'expected the same key of a fresh read of the packaged defaults',
                       instance='reset named: global[k] := get_default_prms()[k]')
     # unknown names refused
-    raises = [e for e in fx.own_events(rq) if e.kind == 'raise']
+    raises = [e for e in rq_events if e.kind == 'raise']
     ctx.check(len(raises) >= 1, rule, rq, rf.node.name, rf.loc(), 'unknown parameter names are not refused',
               instance='reset named: unknown name raises')
 
